@@ -70,6 +70,8 @@ HAND = [
     ("suzuki-type", "[CH3:1][Br:2].[BH2:3][CH3:4]>>[CH3:1][CH3:4].[BH2:3][Br:2]"),
     ("aromatic-sub", "[Br:2][c:1]1[cH:7][cH:8][cH:9][cH:10][cH:11]1.[NH3:3]>>[NH2:3][c:1]1[cH:7][cH:8][cH:9][cH:10][cH:11]1.[BrH:2]"),
     ("diels-alder", "[CH2:1]=[CH:2][CH:3]=[CH2:4].[CH2:5]=[CH2:6]>>[CH2:1]1[CH:2]=[CH:3][CH2:4][CH2:5][CH2:6]1"),
+    ("hydrogenation", "[CH2:1]=[CH2:2].[H:3][H:4]>>[CH2:1]([H:3])[CH2:2][H:4]"),
+    ("hydrogenation-ketone", "[CH3:1][C:2](=[O:3])[CH3:4].[H:5][H:6]>>[CH3:1][C:2]([H:5])([O:3][H:6])[CH3:4]"),
     ("amide-charge", "[CH3:1][C:2](=[O:3])[Cl:4].[NH2-:5]>>[CH3:1][C:2](=[O:3])[NH2:5].[Cl-:4]"),
 ]
 
